@@ -1278,6 +1278,24 @@ def classify_name(f, name, _seen=()):
             elif n.func.attr == 'append':
                 cn = smap.get(id(n))
                 guarded = False
+                # appended per group of a groupby / per element of a
+                # collection which is itself distinct (desugared
+                # comprehension)
+                via = None
+                argnames = {x.id for x in walk(n.args[0])
+                            if isinstance(x, ast.Name)}
+                for lp in reversed(enclosing_loops(f, n)):
+                    if set(stores_in_target(lp.target)) & argnames:
+                        if groupby_call(lp.iter):
+                            via = DISTINCT if is_sorted_seq(
+                                f, lp.iter.args[0]) else ADJACENT
+                        elif name not in _seen:
+                            via = classify_nodes(f, lp.iter, _seen + (name,))
+                            via = via if via in (DISTINCT, ADJACENT) else None
+                        break
+                if via:
+                    kinds.append(via)
+                    continue
                 if cn is not None:
                     for tid, lab in guards(g, cn.id):
                         a = g.nodes[tid].ast
@@ -1296,15 +1314,42 @@ def classify_name(f, name, _seen=()):
             return k
 
 
+# {function: predicate(name)}: the local derives from a node name / index of
+# the slots according to the dependence graph (set by r09_5 per function)
+_PLACE_DERIVED = {}
+
+
+def place_derived(f, name):
+    pd = _PLACE_DERIVED.get(f.where)
+    return bool(pd and pd(name))
+
+
 def reads_place_or_local(f, e):
-    """e is a node name / index of a slot (directly or through a local bound
-    once to one)"""
+    """e is (computed from) a node name / index of a slot"""
     if reads_place(e):
         return True
-    if isinstance(e, ast.Name):
-        v = single_def(f, e.id)
-        return v is not None and reads_place(v)
-    return False
+    return any(isinstance(n, ast.Name) and place_derived(f, n.id)
+               for n in walk(e, nested=True))
+
+
+def enclosing_loops(f, node):
+    """for statements / comprehension generators around `node`, innermost
+    last"""
+    out = []
+
+    def rec(n, stack):
+        if n is node:
+            out.extend(stack)
+            return True
+        for c in ast.iter_child_nodes(n):
+            st = stack
+            if isinstance(n, ast.For) and c is not n.iter:
+                st = stack + [n]
+            if rec(c, st):
+                return True
+        return False
+    rec(f.node, [])
+    return out
 
 
 def count_or_list_of(f, e, _seen=()):
@@ -1371,6 +1416,8 @@ def r09_5(prog, rep, classes, rid='R09.5', minimum=13, floor=5):
                 continue
             rep.saw(f)
             seen = set()
+            _PLACE_DERIVED[f.where] = (lambda name, w=w, G=G: bool(G.marks(
+                G.closure([(w, name)]), ('place',))))
             # (a) collections the code itself reduces to nodes
             names = set()
             for n in walk(f.node, nested=True):
@@ -1473,7 +1520,7 @@ def r09_5(prog, rep, classes, rid='R09.5', minimum=13, floor=5):
 
 
 def reads_place_or_local_seq(f, e, _seen=()):
-    if reads_place(e):
+    if reads_place_or_local(f, e):
         return True
     if isinstance(e, ast.Call) and e.args:
         return reads_place_or_local_seq(f, e.args[0], _seen)
@@ -1893,3 +1940,59 @@ SILENT += [
     dict(name='fork locality test against a set kept in a local', edits=[
         (_L + 'fork.py', "        if node not in ['localhost', self.node_name]:", "        local = {'localhost', self.node_name}\n        if node not in local:")]),
 ]
+
+
+# ------------------------------------------------------------------------------
+# behaviour-preserving refactorings of the corpus (/verif/seeded/C09-r*):
+# each hunk of the patch becomes one text edit of a SILENT variant
+#
+def edits_from_patch(path):
+    import os
+    if not os.path.exists(path):
+        return None
+    edits, rel, old, new = [], None, [], []
+
+    def flush():
+        if rel and (old or new) and old != new:
+            edits.append((rel, ''.join(old), ''.join(new)))
+    with open(path, encoding='utf-8') as fh:
+        for line in fh:
+            if line.startswith('diff --git') or line.startswith('index ') or \
+                    line.startswith('--- '):
+                continue
+            if line.startswith('+++ '):
+                flush()
+                old, new = [], []
+                name = line[4:].strip()
+                name = name[2:] if name.startswith('b/') else name
+                pre = 'src/radical/pilot/'
+                rel = name[len(pre):] if name.startswith(pre) else None
+                continue
+            if line.startswith('@@'):
+                flush()
+                old, new = [], []
+            elif line.startswith('+'):
+                new.append(line[1:])
+            elif line.startswith('-'):
+                old.append(line[1:])
+            elif line.startswith(' ') or line == '\n':
+                old.append(line[1:] if line != '\n' else line)
+                new.append(line[1:] if line != '\n' else line)
+    flush()
+    return edits
+
+
+def _corpus():
+    import os
+    here = os.path.dirname(os.path.dirname(os.path.dirname(
+        os.path.abspath(__file__))))
+    out = []
+    for n in range(1, 10):
+        name = 'C09-r%d' % n
+        ed = edits_from_patch(os.path.join(here, 'seeded', name, 'patch.diff'))
+        if ed:
+            out.append(dict(name='corpus refactoring %s' % name, edits=ed))
+    return out
+
+
+SILENT += _corpus()
